@@ -32,6 +32,11 @@ Theorem lock_key_text_same : forall table pk ks rows1 rows2,
   lock_key_text table pk rows1 = lock_key_text table pk rows2.
 Proof. intros. rewrite (lock_key_text_canonical _ _ _ _ H), (lock_key_text_canonical _ _ _ _ H0). reflexivity. Qed.
 
+(* ... and it is the text the select-for-update builder asks the coordinator about for the same keys *)
+Theorem lock_key_text_sfu : forall table pk ks rows,
+  Forall2 (has_key_for pk) ks rows -> lock_key_text table pk rows = sfu_key_text table pk ks.
+Proof. intros. unfold sfu_key_text. apply lock_key_text_canonical. exact H. Qed.
+
 (* parse (join texts) = keys, for images carrying their keys *)
 Theorem lock_key_text_parse : forall pk (items : list (bytes * list key * list irow)),
   pk <> [] -> NoDup pk ->
